@@ -26,7 +26,7 @@ MRegisterProxy(r) == RegisterProxy(r) /\ PrintT(ToJson(
 MResolveTemp(q) == ResolveTemp(q) /\ PrintT(ToJson(
     [src |-> St, act |-> [n |-> "Resolve", q |-> q], out |-> OutResolve(q), dst |-> St']))
 MNext == \/ \E r \in Regions : \/ \E wp \in BOOLEAN : MSeedReq(r, wp)
-                               \/ \E i \in 1..7 : MSeedResp(r, i)
+                               \/ \E i \in 1..8 : MSeedResp(r, i)
                                \/ \E u \in TempUrls(r) : MRegisterTemp(r, u)
                                \/ MRegisterProxy(r)
          \/ \E q \in TempReqs : MResolveTemp(q)
